@@ -24,6 +24,7 @@ import (
 	"golang.org/x/net/http2"
 	"google.golang.org/grpc/codes"
 	"google.golang.org/grpc/internal/channelz"
+	"google.golang.org/grpc/internal/verifhook"
 	"google.golang.org/grpc/internal/zzverif/vlib"
 	"google.golang.org/grpc/internal/zzverif/vlib/rawh2"
 	"google.golang.org/grpc/mem"
@@ -280,6 +281,27 @@ func (c *c13Conn) closeStream(tr *vlib.Trace, k *c13Call, how string) {
 	}
 }
 
+// c13Gate holds NewStream callers of one transport at the hook point "h2c.wait" (after the
+// critical section that registered them as waiters, before the select on the wake-up channel)
+// until the driver releases them.  Holding a goroutine there is a legal schedule.
+type c13Gate struct {
+	ct *http2Client
+	ch chan struct{}
+}
+
+var c13GatePtr atomic.Pointer[c13Gate]
+
+func c13InstallHook() {
+	verifhook.Set(func(point string, obj any) {
+		if point != "h2c.wait" {
+			return
+		}
+		if g := c13GatePtr.Load(); g != nil && obj == any(g.ct) {
+			<-g.ch
+		}
+	})
+}
+
 type c13Step struct {
 	A   string `json:"a"`
 	R   string `json:"r"`
@@ -316,6 +338,14 @@ func c13RunBehaviour(tr *vlib.Trace, parent *channelz.SubChannel, b *c13Beh, sum
 		}
 		return k
 	}
+	held := 0
+	release := func() {
+		if g := c13GatePtr.Swap(nil); g != nil {
+			close(g.ch)
+		}
+		held = 0
+	}
+	defer release()
 	quiesce := func() {
 		synctest.Wait()
 		blocked := 0
@@ -338,7 +368,7 @@ func c13RunBehaviour(tr *vlib.Trace, parent *channelz.SubChannel, b *c13Beh, sum
 		if ok {
 			okI = 1
 		}
-		tr.Emit(c13Ev{"ev": "q", "blocked": blocked, "quota": c13Clamp(q), "waiting": w, "maxc": c13Clamp(m), "snap": okI})
+		tr.Emit(c13Ev{"ev": "q", "blocked": blocked, "quota": c13Clamp(q), "waiting": w, "maxc": c13Clamp(m), "snap": okI, "held": held})
 	}
 	quiesce()
 	for _, st := range b.Steps {
@@ -377,12 +407,22 @@ func c13RunBehaviour(tr *vlib.Trace, parent *channelz.SubChannel, b *c13Beh, sum
 			k.cancel()
 		case "ann":
 			c.peer.announce(st.N)
+		case "hold": // from now on callers that have to wait are held before their select
+			if held == 0 {
+				c13GatePtr.Store(&c13Gate{ct: c.ct, ch: make(chan struct{})})
+				held = 1
+				tr.Emit(c13Ev{"ev": "note", "what": "hold"})
+			}
+		case "release":
+			tr.Emit(c13Ev{"ev": "note", "what": "release"})
+			release()
 		}
 		sum["steps"]++
 		if st.W != 0 {
 			quiesce()
 		}
 	}
+	release()
 	quiesce()
 	if b.Drain != 0 {
 		// close the open streams one at a time: every close must admit a waiter (if any)
@@ -423,6 +463,8 @@ func TestVerifC13Replay(t *testing.T) {
 	// it wakes, which is how the token-forwarding path of checkForStreamQuota is reached
 	defer runtime.GOMAXPROCS(runtime.GOMAXPROCS(vlib.EnvInt("VERIF_PROCS", 1)))
 	parent := channelzSubChannel(t)
+	c13InstallHook()
+	defer verifhook.Set(nil)
 	sum := map[string]int{}
 	for i, ln := range lines {
 		var b c13Beh
@@ -530,7 +572,7 @@ func TestVerifC13Stress(t *testing.T) {
 					if ok {
 						okI = 1
 					}
-					tr.Emit(c13Ev{"ev": "q", "blocked": int(inflight.Load()), "quota": c13Clamp(q), "waiting": w, "maxc": c13Clamp(m), "snap": okI})
+					tr.Emit(c13Ev{"ev": "q", "blocked": int(inflight.Load()), "quota": c13Clamp(q), "waiting": w, "maxc": c13Clamp(m), "snap": okI, "held": 0})
 					select {
 					case <-stopped:
 						return
